@@ -21,7 +21,7 @@ class FnReport:
 
     @property
     def name(self):
-        return '%s::%s' % self.key
+        return '%s::%s' % self.key[:2] + ('#' + self.key[2] if len(self.key) > 2 else '')
 
 
 def generate(key, contract, registry, root=None):
@@ -32,7 +32,7 @@ def generate(key, contract, registry, root=None):
         sym.reset_names()
         info = extract.get_function(key[0], key[1], root)
         rep.info = info
-        ex = Exec(info, contract, registry, name=key[1])
+        ex = Exec(info, contract, registry, name=key[1] + ('#' + key[2] if len(key) > 2 else ''))
         rep.ex = ex
         ex.run()
         rep.vcs = ex.vcs
